@@ -176,6 +176,10 @@ fn all_containers(bytes: &[u8], kvs: &[Kv], version: u64, auts: &[TableDfa], mma
 /// Light variant for large families: every version, shared layout, one
 /// container; stream, len, verify kind, get of every key and of its last-byte
 /// neighbours, a lower-bound range at a sample of keys.
+fn ladder_kvs(l: usize) -> Vec<Kv> {
+    vec![(vec![b'a'; l], 77), (b"b".to_vec(), 3), (b"bc".to_vec(), 1 << 40)]
+}
+
 pub fn run_model_light(kvs: &[Kv], st: &mut Stats) -> Result<u64, String> {
     let mut n = 0u64;
     for version in [1u64, 2, 3] {
@@ -417,6 +421,11 @@ pub fn replay(case: &Value) -> Result<String, String> {
             let mut st = Stats::default();
             run_model_light(&kvs_from(&case["kvs"]), &mut st).map(|n| format!("{} queries agree", n))
         }
+        "light-ladder" => {
+            let mut st = Stats::default();
+            let l = case["len"].as_u64().unwrap() as usize;
+            std::thread::Builder::new().stack_size(1 << 31).spawn(move || run_model_light(&ladder_kvs(l), &mut st).map(|n| format!("{} queries agree", n))).unwrap().join().unwrap()
+        }
         "light-big" => {
             let mut st = Stats::default();
             run_model_light(&big_dense_family(), &mut st).map(|n| format!("{} queries agree", n))
@@ -445,7 +454,7 @@ fn do_model(kvs: &[Kv], auts: &[TableDfa], mmap: bool, st: &mut Stats, rep: &Rep
 pub fn plan(tier: Tier) -> Plan {
     let mut p = Plan::new("C10", "model_checking");
     let thorough = tier.thorough();
-    p.rule = "every model of U_ab3 (quick: <= 4 keys and every 7th larger subset; thorough: all) x patterns {0, 3i+1, boundary values} and the fan-out families (where version 1 has no index above 32 transitions) is encoded by an independent reference encoder in versions 1, 2, 3 x layouts {suffix-shared, trie, shared with multi-transition node form only}; each file is opened from Vec, &[u8], Cow (both), Box<[u8]>, Arc<[u8]> newtype, memmap2::Mmap and through map_data, and stream/len/get/contains_key (probe closure)/range (all kind pairs)/search (sampled 2-state DFAs)/union/intersection/is_superset/is_disjoint/verify are compared with the model (verify: ChecksumMissing for v1-2, Ok for v3); golden files committed under /verif/golden; gate grid: version field in {0,1,2,3,4,255,2^32,u64::MAX} x total length 0..40 x {zero-filled, well-formed}. non-trivial = encoded files with >= 2 keys".into();
+    p.rule = "every model of U_ab3 (quick: <= 4 keys and every 7th larger subset; thorough: all) x patterns {0, 3i+1, boundary values} and the fan-out families (where version 1 has no index above 32 transitions) is encoded by an independent reference encoder in versions 1, 2, 3 x layouts {suffix-shared, trie, shared with multi-transition node form only}; each file is opened from Vec, &[u8], Cow (both), Box<[u8]>, Arc<[u8]> newtype, memmap2::Mmap and through map_data, and stream/len/get/contains_key (probe closure)/range (all kind pairs)/search (sampled 2-state DFAs)/union/intersection/is_superset/is_disjoint/verify are compared with the model (verify: ChecksumMissing for v1-2, Ok for v3); golden files committed under /verif/golden; gate grid: version field in {0,1,2,3,4,255,2^32,u64::MAX} x total length 0..40 x {zero-filled, well-formed}; 110 file lengths around each of 2^12..2^17 (quick: 2^12 and 2^16) in all three versions (stream, verify, get). non-trivial = encoded files with >= 2 keys".into();
     p.assumptions = vec![
         "no earlier fst release is available offline: 'as emitted by earlier builders' is represented by the documented layout differences (v1: no transition index; v1-2: no checksum) produced by the reference encoder".into(),
         "the reference encoder is bound to the code three ways: its v3 output is read by the real reader and passes the real verify(), every output is read back by the independent decoder, and the decoder reads the real builder's output (C09)".into(),
@@ -529,6 +538,43 @@ pub fn plan(tier: Tier) -> Plan {
                 }
             }
         }));
+    }
+    // file lengths around 2^12..2^17 (block-wise reading / checksum code): one long key + two short
+    for k in 12..=17u32 {
+        if !thorough && k != 12 && k != 16 {
+            continue;
+        }
+        for part in 0..5usize {
+        p.units.push(unit("file-length-ladder-around-powers-of-two-v1-v2-v3", format!("length ladder 2^{} part {}", k, part), move |st, rep| {
+            // the reference encoder recurses over the key length: run on a thread with a large stack
+            let centre = (1usize << k) + part * 22;
+            let res: Vec<(usize, Result<u64, String>, Stats)> = std::thread::Builder::new()
+                .stack_size(1 << 31)
+                .spawn(move || {
+                    ((centre - 90)..(centre - 68))
+                        .map(|l| {
+                            let mut st = Stats::default();
+                            let r = run_model_light(&ladder_kvs(l), &mut st);
+                            (l, r, st)
+                        })
+                        .collect()
+                })
+                .unwrap()
+                .join()
+                .unwrap();
+            for (l, r, sub) in res {
+                st.states += 3;
+                st.nontrivial += 3;
+                for (k, v) in &sub.counters {
+                    st.count(k, *v);
+                }
+                match r {
+                    Ok(n) => { st.evals += n; st.count("length_ladder_files", 3); }
+                    Err(msg) => rep.violation(format!("length ladder key length {}", l), msg, json!({"kind": "light-ladder", "len": l})),
+                }
+            }
+        }));
+        }
     }
     p.units.push(unit("file-larger-than-16MiB-v1-v2-v3", "big dense".into(), move |st, rep| {
         let kvs = big_dense_family();
